@@ -6,5 +6,6 @@ use vstd::prelude::*;
 use vstd::std_specs::cmp::*;
 use core::cmp::Ordering;
 use std::num::NonZeroU32;
+use std::num::NonZeroUsize;
 use core::str::FromStr;
 use std::sync::Arc;
